@@ -256,16 +256,25 @@ pub fn report_failure(rep_out: &mut Report, t: &Ty, v: &Val, rep: Rep, dir: Dir,
     rep_out.stat("shrink_evaluations", evals as i128);
     let dt = build_type(&mt);
     let fin = evaluate(dt, &mt, &mv, rep, dir);
-    let sig = if fam.starts_with("dec_panic|") {
-        format!("xcdr_diff|{}|{}|rep={}", dir.name(), fam, ver_name(rep))
-    } else {
+    use crate::classify::{Mode, decode_cause, encode_cause, features, panic_cause};
+    let feats = features(&mt, &mv);
+    let unclassified = || format!("unclassified|shape={}|val={}", root_class(&mt), value_class(&mt, &mv));
+    let sig = if let Some(p) = fam.strip_prefix("dec_panic|") {
+        format!("xcdr_diff|dir={}|dec_panic|rep={}|cause={}", dir.name(), ver_name(rep), panic_cause(p))
+    } else if fam == "enc_diff" {
         format!(
-            "xcdr_diff|{}|{}|rep={}|shape={}|val={}",
+            "xcdr_diff|dir=encode|enc_diff|rep={}|cause={}",
+            ver_name(rep),
+            encode_cause(&feats, rep.ver()).map(|c| c.to_string()).unwrap_or_else(unclassified)
+        )
+    } else {
+        let mode = if dir == Dir::DecodeOptimized { Mode::RefOptimized } else { Mode::RefPlain };
+        format!(
+            "xcdr_diff|dir={}|{}|rep={}|cause={}",
             dir.name(),
             fam,
             ver_name(rep),
-            root_class(&mt),
-            value_class(&mt, &mv)
+            decode_cause(&feats, rep.ver(), mode).map(|c| c.to_string()).unwrap_or_else(unclassified)
         )
     };
     let what = format!(
@@ -306,6 +315,24 @@ fn child_units(a: &Cli, from: u64, to: u64, skip: &[(u64, u64)], journal: &mut J
     let mut shrunk: HashSet<u64> = HashSet::new();
     let mut shrinks_left = 8;
     let per_value = (ALL_REPS.len() * DIRS.len()) as u64;
+    if a.shard == 0 && from == 0 {
+        for (t, v) in crate::c09::canonical_rare_cases().into_iter().skip(3) {
+            let dt = build_type(&t);
+            for r in ALL_REPS {
+                for d in DIRS {
+                    let o = evaluate(dt, &t, &v, r, d);
+                    if o.key.starts_with("skip:") || o.harness_problem {
+                        continue;
+                    }
+                    rep.eval();
+                    rep.stat("canonical_rare_cases", 1);
+                    if o.key != "ok" {
+                        report_failure(&mut rep, &t, &v, r, d, &o, 400);
+                    }
+                }
+            }
+        }
+    }
     for unit in from..to {
         flush_partial(&rep, &a.out, unit);
         let mut g = unit_gen(a.seed, a.shard, unit, 0xC10, GenCfg::common_subset());
@@ -384,7 +411,7 @@ fn report_death(rep: &mut Report, dir: &str, t: &Ty, v: &Val, r: Rep, d: Dir, de
         probe("c10", &case_json(ct, cv, r, d), dir) == death_class
     });
     rep.stat("shrink_probe_children", probes);
-    let sig = format!("xcdr_diff|{}|{}|rep={}", d.name(), death_class, ver_name(r));
+    let sig = death_sig(d, death_class, r);
     let what = format!(
         "{} {} {}: process died while dust-dds decoded reference bytes: {} ; type {} value {}",
         r.name(),
@@ -395,6 +422,15 @@ fn report_death(rep: &mut Report, dir: &str, t: &Ty, v: &Val, r: Rep, d: Dir, de
         val_to_json(&mt, &mv).to_string()
     );
     rep.violation(sig, what, case_json(&mt, &mv, r, d).set("outcome", death_class));
+}
+
+fn death_sig(d: Dir, death_class: &str, r: Rep) -> String {
+    format!(
+        "xcdr_diff|dir={}|{}|rep={}|cause=misparse_consequence",
+        d.name(),
+        crate::c09::death_kind(death_class).replace("de_", "dec_"),
+        ver_name(r)
+    )
 }
 
 pub fn trusted_base(rep: &mut Report) -> bool {
@@ -500,7 +536,7 @@ pub fn run(a: &Cli) -> Report {
         rep.eval();
         rep.stat(&format!("{}:{}", d.name(), death.class()), 1);
         rep.nontrivial(fnv_str(&format!("{}|{}|{}", r.name(), d.name(), death.class())));
-        let sig = format!("xcdr_diff|{}|{}|rep={}", d.name(), death.class(), ver_name(r));
+        let sig = death_sig(d, &death.class(), r);
         let seen = rep.violation_counts.get(&sig).copied().unwrap_or(0);
         let probes = if seen >= 2 {
             0
